@@ -483,8 +483,17 @@ def seq_of_block_seqs(name):
 
 def lens_of(st, v):
     """(length, Array k |-> len(v[k])) of a sequence of sequences."""
+    from pyvc.ops import Unsupported
     if isinstance(v, VRef):
-        v = st.obj(v.ref).data
+        o = st.obj(v.ref)
+        if o.kind == "list":
+            # a list DISPLAY of block sequences passed by a caller: the contract is stated for a sequence of symbolic length; writing the
+            # lengths out makes the refutation of the caller's clause a RecFunction + quantifier query in the sat direction (measured:
+            # 120 s of timeouts), so this is OUT-OF-SUBSET and the native replayer decides
+            raise Unsupported("the list of block sequences is a list display here: outside the form the contract is stated for")
+        v = o.data
+    if not isinstance(v, VSeq):
+        raise Unsupported("the list of block sequences is not a sequence the executor follows in this state")
     if isinstance(v.tag, tuple) and v.tag and v.tag[0] == "lens":
         return v.length, v.tag[1]
     return v.length, z3.Lambda([K], v.elem(K).length)
